@@ -143,7 +143,7 @@ func mergeDefaults(c *Client) {
 	if c.Backoff.Multiplier < 1 {
 		c.Backoff.Multiplier = DefaultClient.Backoff.Multiplier
 	}
-	if c.Backoff.Jitter <= 0 || c.Backoff.Jitter >= 1 {
+	if (c.Backoff.Jitter <= 0 && c.Backoff.Jitter != -1) || c.Backoff.Jitter >= 1 {
 		c.Backoff.Jitter = DefaultClient.Backoff.Jitter
 	}
 	if c.ResponseValidator == nil {
